@@ -329,3 +329,44 @@ Proof.
 Qed.
 
 End AtomsCommute.
+
+(* ================================================================== the remaining corners, characterised *)
+Section Corners.
+Context {A : Type}.
+Variable junk : A.
+
+(* gro / arc after the repair of read(): without seek() every skip > 0 and every single-frame load is refused
+   (never wrong frames) *)
+Theorem iterload_seq_noseek_skip_refused g (f : list A) c str k ai fuel : 1 <= c -> 0 < k ->
+  iterload junk g FSeqNoSeek f c str k ai fuel = ([], Raised).
+Proof.
+  intros Hc Hk. unfold iterload. replace (c =? 0) with false by (symmetry; apply Nat.eqb_neq; lia).
+  replace (0 <? k) with true by (symmetry; apply Nat.ltb_lt; lia). reflexivity.
+Qed.
+
+Theorem load_frame_seq_noseek_refused (f : list A) str k ai : load junk FSeqNoSeek f str (Some k) ai = Raise.
+Proof. reflexivity. Qed.
+
+(* xtc as found, after a seek but with stride 1: right (the efficient-striding branch is only taken for stride > 1) *)
+Theorem iterload_xtc_stride1_after_skip g (f : list A) c k ai fuel : 1 <= c -> 0 < k < length f -> length f < fuel ->
+  iterload junk g FXtc f c 1 k ai fuel = spec_iterload f c 1 k ai.
+Proof.
+  intros Hc Hk Hf. unfold spec_iterload. replace (c =? 0) with false by (symmetry; apply Nat.eqb_neq; lia).
+  eapply (iterload_right junk FXtc Inoeff g (xtc_noeff_right junk)) with (s1 := mkst k k true);
+    try assumption; try reflexivity; try discriminate; try lia.
+  replace (0 <? k) with true by (symmetry; apply Nat.ltb_lt; lia). cbn [sk]. unfold xdr_seek.
+  now replace (k <? length f) with true by (symmetry; apply Nat.ltb_lt; lia).
+Qed.
+
+(* xtc and trr: skip >= n_frames is refused for every file (the property promises an empty iteration for skip = n_frames) *)
+Theorem iterload_xdr_skip_all_refused g fm (f : list A) c str k ai fuel : fm = FXtc \/ fm = FTrr ->
+  1 <= c -> 0 < k -> length f <= k ->
+  iterload junk g fm f c str k ai fuel = ([], Raised).
+Proof.
+  intros Hfm Hc Hk HT. unfold iterload. replace (c =? 0) with false by (symmetry; apply Nat.eqb_neq; lia).
+  replace (0 <? k) with true by (symmetry; apply Nat.ltb_lt; lia).
+  destruct Hfm; subst fm; cbn [sk]; unfold xdr_seek;
+    replace (k <? length f) with false by (symmetry; apply Nat.ltb_ge; lia); reflexivity.
+Qed.
+
+End Corners.
